@@ -327,6 +327,10 @@ def _transform(dst, how):
                 new = extract_tails(src)
             elif how == 'flags':
                 new = forelse_to_flags(src)
+            elif how == 'swapassign':
+                new = swap_independent_assignments(src)
+            elif how == 'tablestmts':
+                new = tables_by_statements(src)
             elif how == 'renameparams':
                 new = rename_private_params(src, pplan)
             elif how == 'heads':
@@ -1450,6 +1454,119 @@ def rename_private_params(src, plan):
     return ast.unparse(ast.fix_missing_locations(tree)) + '\n'
 
 
+def tables_by_statements(src):
+    """Module- and class-level tables written as dict literals are built item
+    by item instead (`T = {}` then `T[k] = v` ...), a registration written as
+    `FUNCTIONS[k] = v` becomes `FUNCTIONS.update({k: v})`, and `isinstance(x,
+    (A, B))` becomes `isinstance(x, A) or isinstance(x, B)`."""
+    import ast
+    tree = ast.parse(src)
+
+    def expand(stmts, at_module):
+        out = []
+        for st in stmts:
+            if isinstance(st, ast.ClassDef):
+                st.body = expand(st.body, False)
+                out.append(st)
+                continue
+            if isinstance(st, ast.Assign) and len(st.targets) == 1 and \
+                    isinstance(st.targets[0], ast.Name) and isinstance(
+                    st.value, ast.Dict) and len(st.value.keys) >= 2 and all(
+                    k is not None for k in st.value.keys):
+                name = st.targets[0].id
+                used = {x.id for v in st.value.values for x in ast.walk(v)
+                        if isinstance(x, ast.Name)}
+                if name not in used:
+                    out.append(ast.copy_location(ast.Assign(
+                        targets=[ast.Name(id=name, ctx=ast.Store())],
+                        value=ast.Dict(keys=[], values=[])), st))
+                    for k, v in zip(st.value.keys, st.value.values):
+                        out.append(ast.copy_location(ast.Assign(
+                            targets=[ast.Subscript(
+                                value=ast.Name(id=name, ctx=ast.Load()),
+                                slice=k, ctx=ast.Store())], value=v), st))
+                    continue
+            if at_module and isinstance(st, ast.Assign) and len(
+                    st.targets) == 1 and isinstance(
+                    st.targets[0], ast.Subscript) and isinstance(
+                    st.targets[0].value, ast.Name) and \
+                    st.targets[0].value.id in ('FUNCTIONS', 'OPERATORS') \
+                    and isinstance(st.targets[0].slice, ast.Constant):
+                out.append(ast.copy_location(ast.Expr(value=ast.Call(
+                    func=ast.Attribute(value=ast.Name(
+                        id=st.targets[0].value.id, ctx=ast.Load()),
+                        attr='update', ctx=ast.Load()),
+                    args=[ast.Dict(keys=[st.targets[0].slice],
+                                   values=[st.value])], keywords=[])), st))
+                continue
+            out.append(st)
+        return out
+
+    tree.body = expand(tree.body, True)
+
+    class T(ast.NodeTransformer):
+        def visit_Call(self, n):
+            self.generic_visit(n)
+            if isinstance(n.func, ast.Name) and n.func.id == 'isinstance' \
+                    and len(n.args) == 2 and isinstance(
+                    n.args[1], ast.Tuple) and len(n.args[1].elts) >= 2 and \
+                    isinstance(n.args[0], ast.Name):
+                import copy
+                return ast.copy_location(ast.BoolOp(op=ast.Or(), values=[
+                    ast.Call(func=ast.Name(id='isinstance', ctx=ast.Load()),
+                             args=[copy.deepcopy(n.args[0]), e], keywords=[])
+                    for e in n.args[1].elts]), n)
+            return n
+
+    tree = T().visit(tree)
+    return ast.unparse(ast.fix_missing_locations(tree)) + '\n'
+
+
+def swap_independent_assignments(src):
+    """Two adjacent assignments of call-free expressions to different plain
+    names, neither mentioning the other's target, change places."""
+    import ast
+    tree = ast.parse(src)
+
+    def simple(st):
+        return isinstance(st, ast.Assign) and len(st.targets) == 1 and \
+            isinstance(st.targets[0], ast.Name) and not any(isinstance(
+                x, (ast.Call, ast.Yield, ast.YieldFrom, ast.Await,
+                    ast.NamedExpr, ast.Subscript, ast.Attribute, ast.BinOp,
+                    ast.Compare, ast.ListComp, ast.DictComp, ast.SetComp,
+                    ast.GeneratorExp)) for x in ast.walk(st.value))
+
+    def names(e):
+        return {x.id for x in ast.walk(e) if isinstance(x, ast.Name)}
+
+    def do(stmts):
+        i = 0
+        while i + 1 < len(stmts):
+            a, b = stmts[i], stmts[i + 1]
+            if simple(a) and simple(b) and \
+                    a.targets[0].id != b.targets[0].id and \
+                    a.targets[0].id not in names(b.value) and \
+                    b.targets[0].id not in names(a.value):
+                stmts[i], stmts[i + 1] = b, a
+                i += 2
+            else:
+                i += 1
+        for st in stmts:
+            for fld in ('body', 'orelse', 'finalbody'):
+                sub = getattr(st, fld, None)
+                if isinstance(sub, list) and sub and isinstance(
+                        sub[0], ast.stmt) and not isinstance(
+                        st, ast.ClassDef):
+                    do(sub)
+            for h in getattr(st, 'handlers', []) or []:
+                do(h.body)
+
+    for n in ast.walk(tree):
+        if isinstance(n, ast.FunctionDef):
+            do(n.body)
+    return ast.unparse(ast.fix_missing_locations(tree)) + '\n'
+
+
 def rename_import_aliases(src):
     """`import numpy as np` -> `import numpy as np_al9` (and every use): a
     behaviour-preserving edit that defeats rules matching `np.` as text."""
@@ -1572,7 +1689,8 @@ def run_for_property(prop, repo, seed=0, jobs=None):
                 'splitassign', 'comp2loop', 'joinassign', 'renamepriv',
                 'flags', 'fstrings', 'lambdas', 'dictloops', 'guards',
                 'nestguards', 'nameargs', 'ctorcomps', 'calltables',
-                'ifexpstmt', 'yoda', 'renameparams'):
+                'ifexpstmt', 'yoda', 'renameparams', 'tablestmts',
+                'swapassign'):
         variants.append({'id': '%s-benign-%s-all' % (prop.lower(), how),
                          'property': prop, 'kind': 'benign', 'edits': [],
                          'transform': how, 'expect': None, 'clears': None,
